@@ -15,7 +15,8 @@
    * C02_productive_decided: the per-specification productivity verdict the
      check computes with the table-method model means "every class of the
      specification pumps in the least-fixed-point sense" (C03).
-   * C02_forest_productive: see C11_productive / C11_closed (forest database).
+   * forest database: no theorem HERE says that what RuleDBForest returns is productive or closed - that is
+     C11_productive / C11_closed in Props/C11.v (over C11's own model and key type).
    Not a theorem (stated in DESIGN.md): productivity of specifications found by
    the pruning databases relies on the strategies being productive (pruning is
    a greatest fixed point); it is DECIDED per returned specification by the
@@ -27,12 +28,14 @@
        C02_rules_from_table, C02_rules_from_table_all   genuineness AS A THEOREM: every rule handed out is
            strategy(class) of a table entry, its equivalence form, or the reverse of a reversible entry, for the
            strategy a store handed back for the entry's key;
-       C02_find_rule_total, C02_find_rule_total_generic  an entry the searcher stored is found again and the rule
-           found is filed under the entry's key;
+       C02_find_rule_total, C02_find_rule_total_generic  an entry stored by an add_hist history is found again and
+           the rule found is filed under the entry's key; C02_search_find_rule_total: the same for the RuleDB ANY run of
+           the searcher model built (composition with C04 through RuleDB/SearchHist.v; hypotheses on the table only);
        C02_find_rule_outcomes  every failure characterised; C02_find_rule_forget_foreign_parent_refuted the recorded
            limitation of RuleDBForgetStrategy; C02_extractor_hands_out_nonunary_equivalence_refuted the finding
-           (findings/oneway_equivalence_with_empty_sibling.py; FIXED in /repo by 398db71: the witness is about the old
-           code, convert = false) and C02_repair_converts the repair (convert = true = /repo as it is).
+           findings/oneway_equivalence_with_empty_sibling.py about the code BEFORE /repo commit 398db71 (model run
+           with convert := false; FIXED by that commit: rules() converts) and C02_repair_converts the repair, which is
+           what the code does now (convert := true, the only branch compared with the code).
    * CombinatorialSpecification.__init__ (model Spec/Grouping.v, proofs Spec/GroupingProofs.v, GroupingInit.v,
      GroupingProd.v, GroupingProdLink.v), for every input satisfying wf_input (Spec/GroupingWf.v: closed, one rule
      per class, equivalence rules unary with a rule for their child, chains of hidden classes end, every class
@@ -42,14 +45,23 @@
        on a path), C02_hidden_on_two_paths ("exactly one path" is false in general), C02_group_ungroup_roundtrip,
        C02_constructor_never_raises, C02_lazy_empty_sound, C02_set_subrules_only_adds_empty_rules,
        C02_enforce_labels_partial, C02_grouping_preserves_productivity, C02_wf_decided.
-   Genuineness of the rule OBJECTS of word universes (constructors, shifts) stays a per-instance verdict of the
-   oracle; the theorems above are about the strategy-table level. *)
+     Added with the real shifts (the check now sends list(rule.shifts()) of every rule, it used to send []):
+       C02_shifts_decided (third premise of C02_grouping_preserves_productivity, decided by shifts_okb) and
+       C02_object_keys_pump_iff (the bits and the two key lists run_spec prints for a real rule set are an
+       instance of the theorem), Examples C02_grouping_preserves_productivity_applied (a path whose members have
+       shifts 1, -1, 2), C02_object_keys_pump_iff_applied, C02_shifts_premise_matters.
+   Genuineness of the rule OBJECTS is NOT a theorem: the oracle compares the CHILDREN of strategy(class) with the
+   children of the base rule of every rule handed out (not constructor, parameters, reverse index); declared
+   shifts of derived forms are compared with the rules they stand for (word universes); the theorems above are
+   about the strategy-table level. *)
 From Coq Require Import ZArith List Bool.
 From CSS Require Import Base.Sx Forest.Spec Forest.Model Forest.Run Forest.Theorems
   Spec.Extractor Spec.ExtractorProofs Spec.ExtractorRun.
-From CSS Require ClassDB.Model ClassDB.Proofs Searcher.Model RuleDB.Model RuleDB.CdbFacts RuleDB.GetProofs RuleDB.AddProofs
-  Spec.FindRule Spec.FindRuleProofs Spec.FindRuleRepair Spec.Grouping Spec.GroupingWf Spec.GroupingFacts Spec.GroupingProofs
+From CSS Require ClassDB.Model ClassDB.Proofs Searcher.Model Searcher.Contracts RuleDB.Model RuleDB.CdbFacts RuleDB.GetProofs
+  RuleDB.AddProofs RuleDB.AddHist RuleDB.SearchHist Props.C04
+  Spec.FindRule Spec.FindRuleProofs Spec.FindRuleSearch Spec.FindRuleRepair Spec.Grouping Spec.GroupingWf Spec.GroupingFacts Spec.GroupingProofs
   Spec.GroupingInit Spec.GroupingProd Spec.GroupingProdLink.
+From CSS Require Spec.GroupingProdObj.
 Import ListNotations.
 
 (* AUDIT: the find_path contract used to be asked for EVERY pair of labels (forall l t); it is
@@ -189,8 +201,8 @@ Qed.
 
 (* ====================================================================== _find_rule / rules() *)
 Module FR.
-Import ClassDB.Model ClassDB.Proofs Searcher.Model RuleDB.Model RuleDB.CdbFacts RuleDB.GetProofs RuleDB.AddProofs
-  Spec.FindRule Spec.FindRuleProofs Spec.FindRuleRepair.
+Import ClassDB.Model ClassDB.Proofs Searcher.Model Searcher.Contracts RuleDB.Model RuleDB.CdbFacts RuleDB.GetProofs RuleDB.AddProofs
+  RuleDB.AddHist Spec.FindRule Spec.FindRuleProofs Spec.FindRuleSearch Spec.FindRuleRepair.
 Open Scope Z_scope.
 
 (* every rule _find_rule hands out is strategy(class) of a table entry (apply_strategy: the strategy applies to the
@@ -233,8 +245,8 @@ Theorem C02_find_rule_total_generic : forall (T : table) (cap : Z -> bool) (get_
   exists f, find_rule T cap get_r get_e d p cs = (d', inl f) /\ form_key T d' f = Some (p, cs).
 Proof. intros T cap get_r get_e. exact (find_rule_total T cap get_r get_e). Qed.
 
-(* the default RuleDB after ANY sequence of ruledb.add calls made as the searcher makes them (add_pre: C04_recorded_
-   from_table), interleaved with any growth of the class database: every key of rule_to_strategy, every edge recorded
+(* the default RuleDB after ANY sequence of ruledb.add calls each made under add_pre (abstract history add_hist; that
+   searches produce such histories is C02_search_find_rule_total below), interleaved with any growth of the class database: every key of rule_to_strategy, every edge recorded
    in the equivalence database (the steps of the explanation paths C02_closed speaks of: C06_path) in the direction it
    was recorded and, for two-way edges, backwards, and every key of eqv_rule_to_strategy both ways is turned back into a
    rule that is filed under exactly that entry.  Contracts: the emptiness cache is truthful (C04_empty_cache_
@@ -260,6 +272,82 @@ Theorem C02_find_rule_total : forall (T : table) (cap : Z -> bool) a, add_hist T
      ((forall C, label_of Z.eqb (fun c : Z => c) d C = Some p -> oracle T C = false) ->
       exists f', fr c [p] = (d, inl f') /\ form_key T d f' = Some (c, [p]))).
 Proof. intros T cap. exact (dict_find_rule_total T cap). Qed.
+
+(* COMPOSITION C04 -> C02 (C04_search_gives_add_hist): the same for the RuleDB a SEARCH built, with the history, the
+   truthful cache and "strategies in the equivalence store can be equivalences" DISCHARGED.  For every run of the
+   searcher model on a pruning database (any table honouring the contracts of Searcher/Contracts.v, start class,
+   packets of strategies of `pack`, is_verified answers, fuel, driver; also a run that died - the statement is about
+   the state it stopped in): the rule stores of the run are the key sets of a RuleDB state  a  reached by an add_hist
+   history, and _find_rule over  a  turns every key of rule_to_strategy, every edge the run handed to the equivalence
+   database (forwards, two-way ones also backwards) and every key of eqv_rule_to_strategy (both ways) back into a rule
+   filed under exactly that entry.  Remaining hypotheses (all on the TABLE): the two strategy contracts, sym_unary and
+   twoway_faithful (see C04_search_gives_add_hist for why they cannot be discharged), a strategy with a two-way entry
+   can be an equivalence (cap), two-way entries are reversible; and per entry: the class a reversed / equivalence
+   entry ends in is not empty. *)
+Theorem C02_search_find_rule_total : forall (T : table) (cap : Z -> bool) (pack : list Z),
+  sym_unary T -> (forall sid0 c0 r, In r (rules_from_strategy T sid0 c0) -> twoway_faithful T r) ->
+  pe_contract T pack -> sym_contract T ->
+  (forall sid c e, entry_of T sid c = Some e -> e_two_way e = true -> cap sid = true) ->
+  (forall sid c e, entry_of T sid c = Some e -> e_two_way e = true -> e_reversible e = true) ->
+  forall F dl ev ans start ps, packets_in pack ps ->
+  let s := run_search T 0 F dl ev ans start ps in
+  let d := cdb s in
+  exists a, add_hist T a /\ b_cdb dstore a = d /\ d_keys (b_r dstore a) = rstore s /\ d_keys (b_e dstore a) = estore s /\
+  let fr := find_rule T cap (dict_lookup (b_r dstore a)) (dict_lookup (b_e dstore a)) d in
+  (forall p cs, In (p, cs) (rstore s) ->
+     exists f, fr p cs = (d, inl f) /\ form_key T d f = Some (p, cs)) /\
+  (forall tw x y, In (EvEdge tw x y) (trace s) ->
+     ((forall C, label_of Z.eqb (fun c : Z => c) d C = Some y -> oracle T C = false) ->
+      exists f, fr x [y] = (d, inl f) /\ form_key T d f = Some (x, [y])) /\
+     (tw = true -> (forall C, label_of Z.eqb (fun c : Z => c) d C = Some x -> oracle T C = false) ->
+      exists f', fr y [x] = (d, inl f') /\ form_key T d f' = Some (y, [x]))) /\
+  (forall p cs, In (p, cs) (estore s) ->
+     exists c, cs = [c] /\
+     ((forall C, label_of Z.eqb (fun c : Z => c) d C = Some c -> oracle T C = false) ->
+      exists f, fr p [c] = (d, inl f) /\ form_key T d f = Some (p, [c])) /\
+     ((forall C, label_of Z.eqb (fun c : Z => c) d C = Some p -> oracle T C = false) ->
+      exists f', fr c [p] = (d, inl f') /\ form_key T d f' = Some (c, [p]))).
+Proof. exact search_find_rule_total. Qed.
+
+(* applied to the search of C04's sx_table (a symmetry entry on an EMPTY class: stores {(2,()), (0,(2,))} and
+   {(0,(1,)), (3,(4,))}): all hypotheses discharged by computation *)
+Lemma sx_cap : forall sid c e, entry_of C04.sx_table sid c = Some e -> e_two_way e = true -> (fun _ : Z => true) sid = true.
+Proof. reflexivity. Qed.
+Lemma sx_rev : forall sid c e, entry_of C04.sx_table sid c = Some e -> e_two_way e = true -> e_reversible e = true.
+Proof.
+  intros sid c e He Ht. unfold entry_of in He. destruct (strat_of C04.sx_table sid) as [x|] eqn:Es; [|discriminate].
+  unfold strat_of in Es. destruct (sid <? 0); [discriminate|].
+  destruct (Z.to_nat sid) as [|[|[|n]]]; simpl in Es; try (destruct n; discriminate); injection Es as <-; simpl in He;
+    repeat match type of He with context [if ?b then _ else _] => destruct b end; try discriminate;
+    injection He as <-; try reflexivity; discriminate.
+Qed.
+Example C02_search_find_rule_total_nonvacuous :
+  let s := run_search C04.sx_table 0 20 false true C04.ex_ans 0 C04.sx_ps in
+  let d := cdb s in
+  exists a, add_hist C04.sx_table a /\ b_cdb dstore a = d /\ d_keys (b_r dstore a) = rstore s /\ d_keys (b_e dstore a) = estore s /\
+  let fr := find_rule C04.sx_table (fun _ => true) (dict_lookup (b_r dstore a)) (dict_lookup (b_e dstore a)) d in
+  (forall p cs, In (p, cs) (rstore s) ->
+     exists f, fr p cs = (d, inl f) /\ form_key C04.sx_table d f = Some (p, cs)) /\
+  (forall tw x y, In (EvEdge tw x y) (trace s) ->
+     ((forall C, label_of Z.eqb (fun c : Z => c) d C = Some y -> oracle C04.sx_table C = false) ->
+      exists f, fr x [y] = (d, inl f) /\ form_key C04.sx_table d f = Some (x, [y])) /\
+     (tw = true -> (forall C, label_of Z.eqb (fun c : Z => c) d C = Some x -> oracle C04.sx_table C = false) ->
+      exists f', fr y [x] = (d, inl f') /\ form_key C04.sx_table d f' = Some (y, [x]))) /\
+  (forall p cs, In (p, cs) (estore s) ->
+     exists c, cs = [c] /\
+     ((forall C, label_of Z.eqb (fun c : Z => c) d C = Some c -> oracle C04.sx_table C = false) ->
+      exists f, fr p [c] = (d, inl f) /\ form_key C04.sx_table d f = Some (p, [c])) /\
+     ((forall C, label_of Z.eqb (fun c : Z => c) d C = Some p -> oracle C04.sx_table C = false) ->
+      exists f', fr c [p] = (d, inl f') /\ form_key C04.sx_table d f' = Some (c, [p]))).
+Proof.
+  exact (C02_search_find_rule_total C04.sx_table (fun _ => true) C04.sx_pack C04.C04_sx_sym_unary C04.C04_sx_faithful
+           C04.C04_sx_pe_contract C04.C04_sx_sym_contract sx_cap sx_rev 20%nat false true C04.ex_ans 0 C04.sx_ps C04.sx_packets).
+Qed.
+(* the entries it speaks about *)
+Example C02_search_find_rule_total_entries :
+  let s := run_search C04.sx_table 0 20 false true C04.ex_ans 0 C04.sx_ps in
+  rstore s = [(2, []); (0, [2])] /\ estore s = [(0, [1]); (3, [4])] /\ In (EvEdge true 3 4) (trace s).
+Proof. cbv zeta. split; [|split]; vm_compute; auto 20. Qed.
 
 (* exactly when it fails (any stores): see outcomes_spec in Spec/FindRuleProofs.v - ValueError iff the key is in
    neither store in either direction; RuntimeError / class-database errors only when a lookup raises them; the
@@ -426,6 +514,28 @@ Proof.
   - exact (grouped_derivable_ungrouped is_empty root d0 d1 W G S).
 Qed.
 
+(* the third premise is decided by shifts_okb, which the check evaluates (next to wf_inputb) on every real rule set,
+   now that every rule is sent with the shifts it declares *)
+Theorem C02_shifts_decided : forall d, shifts_okb d = true ->
+  forall k r, In (k, GB r) d -> length (b_sh r) = length (b_ch r).
+Proof. exact Spec.GroupingProdObj.shifts_okb_sound. Qed.
+
+(* what the check observes on a real rule set, put together: if wf_inputb and shifts_okb answer true on the
+   ungrouped input, the executable constructor finishes, and its rules_dict has as many entries as the dictionary
+   _group_equiv_in_path left (same_dictb; _set_subrules only appends, so it IS that dictionary), then the two key
+   lists run_spec prints - R1 of the OBJECT'S rules_dict, compared by the check with the forest keys the real object
+   declares, and R0 of the ungrouped rules - pump the same classes among those with a rule in the object *)
+Theorem C02_object_keys_pump_iff : forall is_empty root rules s,
+  let d0 := ungroup (rules_dict rules) in
+  wf_inputb is_empty root d0 = true -> shifts_okb d0 = true ->
+  spec_init is_empty root rules true = XOk s ->
+  same_dictb is_empty root rules true (sp_rules s) = true ->
+  grouped is_empty root d0 (sp_rules s) /\
+  (forall c g, In (c, g) (sp_rules s) -> (pumps (R1 (sp_rules s)) c <-> pumps (R0 d0 (sp_rules s)) c)) /\
+  (pumps (R1 (sp_rules s)) root <-> pumps (R0 d0 (sp_rules s)) root) /\
+  (forall c v, derivable (R1 (sp_rules s)) c v -> derivable (R0 d0 (sp_rules s)) c v).
+Proof. exact Spec.GroupingProdObj.object_keys_pump_iff. Qed.
+
 (* the hypotheses are decided by wf_inputb, which the check evaluates on every real rule set *)
 Theorem C02_wf_decided : forall is_empty root d, wf_inputb is_empty root d = true -> wf_input is_empty root d.
 Proof. exact wf_inputb_sound. Qed.
@@ -462,8 +572,7 @@ Proof.
 Qed.
 
 (* ill-formed inputs on which the real constructor fails as the model does:
-   an equivalence rule with an empty sibling that was not converted (finding fixed by 398db71, see below: rules() no
-   longer hands such a rule to the constructor), and a cycle of hidden
+   an equivalence rule with an empty sibling that was not converted (the finding fixed by 398db71, see below), and a cycle of hidden
    classes (the loop never ends; only table universes with their arbitrary shifts produce it) *)
 Example C02_grouping_rejects_nonunary_equivalence :
   spec_init ex_empty 0 [R 0 [1; 9] true [0; 0]%Z 0; R 1 [] false [] 1] true = XErr XAssertPathUnary /\
@@ -475,9 +584,77 @@ Example C02_grouping_hidden_cycle_runs_out_of_fuel :
   spec_init ex_empty 0 [R 0 [1] true [1]%Z 0; R 1 [2] true [1]%Z 1; R 2 [1] true [1]%Z 2] true = XFuel /\
   wf_inputb ex_empty 0 (rules_dict [R 0 [1] true [1]%Z 0; R 1 [2] true [1]%Z 1; R 2 [1] true [1]%Z 2]) = false.
 Proof. vm_compute. split; reflexivity. Qed.
+
+(* ---------------------------------------------------------------- productivity with real-looking shifts
+   0 -> (1, 5, 9) shifts (1, 0, 0) ; 1 => 2 => 3 => 4 equivalences with shifts 1, -1, 2 (2 and 3 hidden) ;
+   4 -> (0, 5) shifts (0, 1) ; 5 -> () ; 9 is empty, without rule *)
+Definition pr_rules : list grule :=
+  [R 0 [1; 5; 9] false [1; 0; 0]%Z 0; R 1 [2] true [1]%Z 1; R 2 [3] true [(-1)]%Z 2; R 3 [4] true [2]%Z 3;
+   R 4 [0; 5] false [0; 1]%Z 4; R 5 [] false [] 5].
+Definition pr_d0 : dict := ungroup (rules_dict pr_rules).
+Definition pr_d1 : dict :=
+  [(0, R 0 [1; 5; 9] false [1; 0; 0]%Z 0);
+   (1, GP (mkB 1 [2] true [1]%Z 1) [mkB 2 [3] true [(-1)]%Z 2; mkB 3 [4] true [2]%Z 3]);
+   (4, R 4 [0; 5] false [0; 1]%Z 4); (5, R 5 [] false [] 5); (9, empty_rule 9)].
+
+(* the table-method model's verdict on the GROUPED keys (path 1 => 2 => 3 => 4 counted as 1 -> 4 with shift
+   1 + (-1) + 2 = 2) ... *)
+Lemma pr_run : exists st, run pick0 100 init (map AddKey (R1 pr_d1)) = Some st /\
+  map (fun c => snd (is_pumping st c)) [0; 1; 4; 5; 9] = [true; true; true; true; true].
+Proof. eexists. split; vm_compute; reflexivity. Qed.
+
+(* C02_grouping_preserves_productivity APPLIED to a dictionary with a path rule whose members have non-zero
+   shifts; all three hypotheses discharged by computation (wf_inputb, the executable group_core, shifts_okb).
+   The verdict computed on the keys of the grouped object (C02_productive_decided) is carried to the ungrouped
+   rules, hidden classes 2 and 3 included (through the chain, GroupingProd.pumps_hidden is not even needed:
+   they are parents of R0 keys whose only child pumps) *)
+Example C02_grouping_preserves_productivity_applied :
+  group_core ex_empty (group_fuel 0 pr_d0) 0 pr_d0 = XOk pr_d1 /\
+  R1 pr_d1 = [mkkey 0 [(1, 1%Z); (5, 0%Z); (9, 0%Z)]; mkkey 1 [(4, 2%Z)]; mkkey 4 [(0, 0%Z); (5, 1%Z)];
+              mkkey 5 []; mkkey 9 []] /\
+  R0 pr_d0 pr_d1 = [mkkey 0 [(1, 1%Z); (5, 0%Z); (9, 0%Z)]; mkkey 1 [(2, 1%Z)]; mkkey 2 [(3, (-1)%Z)];
+                    mkkey 3 [(4, 2%Z)]; mkkey 4 [(0, 0%Z); (5, 1%Z)]; mkkey 5 []; mkkey 9 []] /\
+  (pumps (R1 pr_d1) 0 <-> pumps (R0 pr_d0 pr_d1) 0) /\
+  pumps (R1 pr_d1) 0 /\ pumps (R0 pr_d0 pr_d1) 0 /\ pumps (R0 pr_d0 pr_d1) 1 /\ pumps (R0 pr_d0 pr_d1) 4.
+Proof.
+  assert (wf_input ex_empty 0 pr_d0) as W by (apply C02_wf_decided; vm_compute; reflexivity).
+  destruct (C02_grouping_terminates ex_empty 0 pr_d0 W (group_fuel 0 pr_d0) (le_n _)) as (d1 & Hg & G).
+  assert (d1 = pr_d1) as -> by (vm_compute in Hg; injection Hg as <-; reflexivity).
+  assert (forall k r, In (k, GB r) pr_d0 -> length (b_sh r) = length (b_ch r)) as S
+    by (apply C02_shifts_decided; vm_compute; reflexivity).
+  destruct (C02_grouping_preserves_productivity ex_empty 0 pr_d0 pr_d1 W G S) as (Hall & Hroot & _).
+  destruct pr_run as (st & Hr & Hv). cbn [map] in Hv. injection Hv as H0 H1 H4 _ _.
+  pose proof (C02_productive_decided (R1 pr_d1) 100 st Hr) as D.
+  assert (pumps (R1 pr_d1) 0) as P0 by (apply D; exact H0).
+  split; [exact Hg|]. split; [vm_compute; reflexivity|]. split; [vm_compute; reflexivity|].
+  split; [exact Hroot|]. split; [exact P0|]. split; [apply Hroot; exact P0|].
+  split; (apply Hall; [vm_compute; reflexivity|apply D; assumption]).
+Qed.
+
+(* the same through the executable constructor, as the check does it on every real rule set: the four bits
+   run_spec prints (wf, shifts_ok, status, same) are the hypotheses *)
+Example C02_object_keys_pump_iff_applied :
+  exists s, spec_init ex_empty 0 pr_rules true = XOk s /\ sp_rules s = pr_d1 /\
+    (pumps (R1 (sp_rules s)) 0 <-> pumps (R0 pr_d0 (sp_rules s)) 0) /\
+    (pumps (R1 (sp_rules s)) 1 <-> pumps (R0 pr_d0 (sp_rules s)) 1).
+Proof.
+  eexists. split; [vm_compute; reflexivity|]. split; [reflexivity|].
+  destruct (C02_object_keys_pump_iff ex_empty 0 pr_rules _
+              ltac:(vm_compute; reflexivity) ltac:(vm_compute; reflexivity) ltac:(vm_compute; reflexivity)
+              ltac:(vm_compute; reflexivity)) as (_ & Hall & Hroot & _).
+  split; [exact Hroot|]. apply (Hall 1 (GP (mkB 1 [2] true [1]%Z 1) [mkB 2 [3] true [(-1)]%Z 2; mkB 3 [4] true [2]%Z 3])).
+  right. left. reflexivity.
+Qed.
+
+(* the premise `one shift per child` is needed for the KEYS to be those of the rules: with the shifts left out
+   (what the check used to send) zip(children, shifts) is empty, every rule is a leaf and pumps vacuously *)
+Example C02_shifts_premise_matters :
+  shifts_okb (ungroup (rules_dict [R 0 [1] false [] 0; R 1 [0] false [] 1])) = false /\
+  R1 (rules_dict [R 0 [1] false [] 0; R 1 [0] false [] 1]) = [mkkey 0 []; mkkey 1 []].
+Proof. vm_compute. split; reflexivity. Qed.
 End GR.
 
-(* ====================================================================== the finding (fixed by 398db71), in the models *)
+(* ====================================================================== the finding fixed by /repo 398db71, in the models *)
 Module FINDING.
 Import ClassDB.Model Searcher.Model RuleDB.Model Spec.FindRule Spec.Grouping.
 Open Scope Z_scope.
@@ -530,6 +707,7 @@ Print Assumptions C02_rules_from_table.
 Print Assumptions C02_rules_from_table_all.
 Print Assumptions C02_find_rule_total_generic.
 Print Assumptions C02_find_rule_total.
+Print Assumptions C02_search_find_rule_total.
 Print Assumptions C02_find_rule_outcomes.
 Print Assumptions C02_find_rule_forget_foreign_parent_refuted.
 Print Assumptions C02_equivalences_handed_out_unary.
@@ -543,6 +721,8 @@ Print Assumptions C02_lazy_empty_sound.
 Print Assumptions C02_set_subrules_only_adds_empty_rules.
 Print Assumptions C02_enforce_labels_partial.
 Print Assumptions C02_grouping_preserves_productivity.
+Print Assumptions C02_shifts_decided.
+Print Assumptions C02_object_keys_pump_iff.
 Print Assumptions C02_wf_decided.
 Print Assumptions C02_hidden_on_two_paths.
 Print Assumptions C02_extractor_hands_out_nonunary_equivalence_refuted.
